@@ -113,10 +113,38 @@ func (w *world) viol(k *kase, key, what string, extra map[string]interface{}) {
 	w.c.Violation(key, fmt.Sprintf("case %d: %s", k.N, what), wit)
 }
 
-// splitKey picks the defect class of a wrong split / failed dispatch.
-func splitKey(k *kase, other string) string {
-	if hasFoldRune(k.Path) {
-		return "C13/split-on-lowercased-path"
+// splitKey picks the defect class of a wrong split / failed dispatch. The
+// class "split position computed on a lower-cased copy" is only named when
+// the observation is what that mechanism predicts for this path (gotScript is
+// the script name the responder received, "" when nothing was dispatched
+// because the handler panicked); every other failure keeps the generic key.
+func (w *world) splitKey(k *kase, gotScript string, panicked bool, other string) string {
+	if !hasFoldRune(k.Path) {
+		return other
+	}
+	cands := []string{k.Path, strings.TrimRight(k.Path, " .")}
+	for _, p := range cands {
+		fp := p
+		if strings.HasSuffix(p, "/") {
+			ip := path.Join(p, k.Cfg.Index)
+			if st, err := os.Stat(filepath.Join(w.root, filepath.FromSlash(ip))); err == nil && !st.IsDir() {
+				fp = ip
+			}
+		}
+		pos := strings.Index(strings.ToLower(fp), strings.ToLower(k.Cfg.Split))
+		if pos < 0 {
+			continue
+		}
+		e := pos + len(k.Cfg.Split)
+		if e > len(fp) {
+			if panicked {
+				return "C13/split-on-lowercased-path"
+			}
+			continue
+		}
+		if gotScript != "" && gotScript == fp[:e] && pos != indexFoldASCII(fp, k.Cfg.Split) {
+			return "C13/split-on-lowercased-path"
+		}
 	}
 	return other
 }
@@ -170,7 +198,7 @@ func (w *world) judge(k *kase, s *site, resp *lib.Resp, got []*received, seen []
 			case w.excepted(k):
 				c.Count("excepted_path_served_statically", 1)
 			case strings.HasSuffix(lowerASCII(rel), lowerASCII(k.Cfg.Ext)) && strings.HasPrefix(rel, k.Cfg.Base+"/"):
-				w.viol(k, splitKey(k, "C13/source-disclosed"), fmt.Sprintf("the source of %s (extension %s, under rule path %s) was returned to the client as static text", rel, k.Cfg.Ext, k.Cfg.rulePath()),
+				w.viol(k, "C13/source-disclosed", fmt.Sprintf("the source of %s (extension %s, under rule path %s) was returned to the client as static text", rel, k.Cfg.Ext, k.Cfg.rulePath()),
 					map[string]interface{}{"response": respSummary(resp), "file": rel})
 			}
 		}
@@ -182,10 +210,10 @@ func (w *world) judge(k *kase, s *site, resp *lib.Resp, got []*received, seen []
 	if !hit {
 		switch {
 		case must:
-			w.viol(k, splitKey(k, "C13/ext-file-not-routed"), fmt.Sprintf("request for the existing file %q (rule extension %s, under %s) never reached the responder; client got %v; panic logged: %q", k.Path, k.Cfg.Ext, k.Cfg.rulePath(), respSummary(resp), panicLine),
+			w.viol(k, w.splitKey(k, "", panicked, "C13/ext-file-not-routed"), fmt.Sprintf("request for the existing file %q (rule extension %s, under %s) never reached the responder; client got %v; panic logged: %q", k.Path, k.Cfg.Ext, k.Cfg.rulePath(), respSummary(resp), panicLine),
 				map[string]interface{}{"response": respSummary(resp), "error_log": clip(tail, 600)})
 		case panicked:
-			w.viol(k, splitKey(k, "C13/handler-panic"), fmt.Sprintf("the fastcgi handler panicked before dispatch (%s); client got %v", panicLine, respSummary(resp)),
+			w.viol(k, w.splitKey(k, "", panicked, "C13/handler-panic"), fmt.Sprintf("the fastcgi handler panicked before dispatch (%s); client got %v", panicLine, respSummary(resp)),
 				map[string]interface{}{"response": respSummary(resp), "error_log": clip(tail, 600)})
 		default:
 			c.Count("not_routed", 1)
@@ -212,7 +240,7 @@ func (w *world) judge(k *kase, s *site, resp *lib.Resp, got []*received, seen []
 	}
 	wants := w.splits(k)
 	if len(wants) == 0 {
-		w.viol(k, splitKey(k, "C13/routed-without-split"), fmt.Sprintf("path %q does not contain the split string %q (and resolves to no index file) but was sent to the responder", k.Path, k.Cfg.Split), nil)
+		w.viol(k, "C13/routed-without-split", fmt.Sprintf("path %q does not contain the split string %q (and resolves to no index file) but was sent to the responder", k.Path, k.Cfg.Split), nil)
 		return
 	}
 
@@ -375,7 +403,7 @@ func (w *world) judge(k *kase, s *site, resp *lib.Resp, got []*received, seen []
 		}
 	}
 	if !okSplit {
-		w.viol(k, splitKey(k, "C13/script-split-wrong"), fmt.Sprintf("path %q split at %q: responder received SCRIPT_NAME=%q PATH_INFO=%q DOCUMENT_URI=%q, want one of %v", k.Path, k.Cfg.Split, gotEnv["SCRIPT_NAME"], gotEnv["PATH_INFO"], gotEnv["DOCUMENT_URI"], wants),
+		w.viol(k, w.splitKey(k, gotEnv["DOCUMENT_URI"], false, "C13/script-split-wrong"), fmt.Sprintf("path %q split at %q: responder received SCRIPT_NAME=%q PATH_INFO=%q DOCUMENT_URI=%q, want one of %v", k.Path, k.Cfg.Split, gotEnv["SCRIPT_NAME"], gotEnv["PATH_INFO"], gotEnv["DOCUMENT_URI"], wants),
 			map[string]interface{}{"got_script_name": gotEnv["SCRIPT_NAME"], "got_path_info": gotEnv["PATH_INFO"], "got_document_uri": gotEnv["DOCUMENT_URI"]})
 	}
 	// configured env entries
@@ -396,6 +424,11 @@ func (w *world) judge(k *kase, s *site, resp *lib.Resp, got []*received, seen []
 	if ctype != "" {
 		scal["CONTENT_TYPE"] = ctype
 	}
+	optDrop := k.Method == "OPTIONS" && k.HasBody && len(k.body) > 0 && len(rq.Stdin) == 0
+	if optDrop {
+		delete(scal, "CONTENT_LENGTH")
+		w.viol(k, "C13/options-body-dropped", fmt.Sprintf("OPTIONS request with a body of %d bytes: the responder received an empty STDIN stream and CONTENT_LENGTH=%q", len(k.body), gotEnv["CONTENT_LENGTH"]), map[string]interface{}{"records": recSummary(rq)})
+	}
 	for n, v := range scal {
 		if gotEnv[n] != v {
 			w.viol(k, "C13/params-"+strings.ToLower(n), fmt.Sprintf("%s: responder received %q, request implies %q", n, clip(gotEnv[n], 100), clip(v, 100)), nil)
@@ -407,7 +440,7 @@ func (w *world) judge(k *kase, s *site, resp *lib.Resp, got []*received, seen []
 	if !k.HasBody {
 		wantBody = nil
 	}
-	if !bytes.Equal(rq.Stdin, wantBody) {
+	if !optDrop && !bytes.Equal(rq.Stdin, wantBody) {
 		w.viol(k, "C13/stdin-bytes", fmt.Sprintf("STDIN stream has %d bytes in %d records, request body has %d bytes (first difference at offset %d)", len(rq.Stdin), rq.StdinRecs, len(wantBody), firstDiff(rq.Stdin, wantBody)),
 			map[string]interface{}{"records": recSummary(rq)})
 	}
@@ -457,7 +490,7 @@ func (w *world) judgeRef(k *kase, s *site, resp *lib.Resp, sn *refSeen, wants []
 		}
 	}
 	if !okSplit {
-		w.viol(k, splitKey(k, "C13/script-split-wrong"), fmt.Sprintf("path %q split at %q: reference responder received DOCUMENT_URI=%q, want one of %v", k.Path, k.Cfg.Split, sn.Env["DOCUMENT_URI"], wants), nil)
+		w.viol(k, w.splitKey(k, sn.Env["DOCUMENT_URI"], false, "C13/script-split-wrong"), fmt.Sprintf("path %q split at %q: reference responder received DOCUMENT_URI=%q, want one of %v", k.Path, k.Cfg.Split, sn.Env["DOCUMENT_URI"], wants), nil)
 	}
 	for _, e := range k.Cfg.Env {
 		want, judged := envWant(e[1], k)
@@ -472,7 +505,9 @@ func (w *world) judgeRef(k *kase, s *site, resp *lib.Resp, sn *refSeen, wants []
 	if k.HasBody {
 		wantLen, wantSHA = len(k.body), sha(k.body)
 	}
-	if sn.ReadErr != "" || sn.BodyLen != wantLen || sn.BodySHA != wantSHA {
+	if k.Method == "OPTIONS" && wantLen > 0 && sn.BodyLen == 0 && sn.ReadErr == "" {
+		w.viol(k, "C13/options-body-dropped", fmt.Sprintf("OPTIONS request with a body of %d bytes: the reference responder read an empty body", wantLen), nil)
+	} else if sn.ReadErr != "" || sn.BodyLen != wantLen || sn.BodySHA != wantSHA {
 		w.viol(k, "C13/stdin-bytes", fmt.Sprintf("reference responder read a body of %d bytes (sha %s, err %q), request body has %d bytes (sha %s)", sn.BodyLen, sn.BodySHA, sn.ReadErr, wantLen, wantSHA), nil)
 	}
 	if k.HasBody && (k.BodyLen%65500 <= 1 || k.BodyLen%65500 == 65499) && k.BodyLen > 1 {
@@ -534,6 +569,9 @@ func (w *world) judgeReply(k *kase, s *site, resp *lib.Resp, panicked bool, pani
 	}
 	for n, v := range want {
 		g := resp.Header[n]
+		if n == "Content-Type" && rp.WantStatus == 304 {
+			continue // a 304 carries no representation metadata (the HTTP server strips it)
+		}
 		if strings.Join(g, "\x00") != strings.Join(v, "\x00") {
 			w.viol(k, "C13/reply-header", fmt.Sprintf("header field %s: responder sent %q, client received %q", n, clip(strings.Join(v, "|"), 200), clip(strings.Join(g, "|"), 200)), nil)
 			break
@@ -574,10 +612,17 @@ func (w *world) judgeReply(k *kase, s *site, resp *lib.Resp, panicked bool, pani
 		if leak {
 			w.viol(k, "C13/stderr-in-response", "stderr bytes of the responder appear in the response sent to the client", map[string]interface{}{"response": respSummary(resp)})
 		}
+		if rp.Chunked {
+			// a CGI reply that applies a transfer coding itself is outside
+			// RFC 3875 (6.3.4); the gateway stops reading at the last chunk
+			c.Count("chunked_reply_stderr_unjudged", 1)
+			goto counted
+		}
 		w.mu.Lock()
 		w.stderrEx = append(w.stderrEx, stderrExpect{N: k.N, Log: s.errLog, Text: strings.TrimSuffix(rp.Stderr, "\n"), Case: lib.JSON(k.describe())})
 		w.mu.Unlock()
 	}
+counted:
 	c.Max("max_padding_sent", int64(rp.MaxPad))
 	c.Max("max_stdout_records", int64(rp.NStdout))
 	if rp.NStderr > 0 {
@@ -594,6 +639,9 @@ func (w *world) judgeReply(k *kase, s *site, resp *lib.Resp, panicked bool, pani
 func (w *world) checkStderr() {
 	logs := map[string]string{}
 	for _, e := range w.stderrEx {
+		if w.headBroken[e.N] {
+			continue
+		}
 		l, ok := logs[e.Log]
 		if !ok {
 			b, _ := os.ReadFile(e.Log)
